@@ -3,8 +3,9 @@
   1. MC    spec/seq/DuctMC.tla: every well-typed program up to a bound; the tree built as coded (append/unit descending
            through the last child) equals the tree prescribed by the stack of open contexts; every visit state of the
            explicit-stack Apply machine, for every failing callback position k, satisfies the statement.
-  2. GEN   spec/seq/DuctGen.tla prints every program (exhaustive up to a bound + a seeded `-simulate` sample of longer
-           ones) with the expected tree and callback trace.  Go type parameters are static, so each program becomes a Go
+  2. GEN   spec/seq/DuctGen.tla prints every program (exhaustive up to a bound; every "nesting skeleton": all words over
+           LiftF/WrapF/Unit with up to 3 open contexts over a reduced type alphabet, followed by 1-2 Join/Yield probes,
+           up to 8 steps after From; a seeded `-simulate` sample of longer ones) with the expected tree and callback trace.  Go type parameters are static, so each program becomes a Go
            function (packages ./gen/ductprog/sNN, each next to a copy of harness/ductdrv/duct_test.go; several packages so
            that the Go compiler works in parallel) that runs the real combinators; the harness visits it with a recording
            visitor and with a visitor failing at every callback position k, and writes what it saw as JSONL.
@@ -18,12 +19,17 @@ import json, os, shutil, subprocess, time
 import common
 from common import run_tlc, Scratch, Infra
 
-MC_CFG = """CONSTANTS
-  MaxLevel = 3
-  FromBases = {"int", "string"}
-  FromLevels = {0, 1, 2}
+CONSTS = """CONSTANTS
+  MaxLevel = %(maxlevel)d
+  FromBases = {%(bases)s}
+  FromLevels = {%(levels)s}
+  Alphabet = "%(alphabet)s"
+  MaxLand = %(land)d
+  MidLand = %(mid)d
+  MaxDepth = %(depth)d
   MaxSteps = %(steps)d
-  WithVisit = %(visit)s
+"""
+MC_CFG = CONSTS + """  WithVisit = %(visit)s
 SPECIFICATION Spec
 INVARIANT TreeAgrees
 INVARIANT OpenChain
@@ -32,17 +38,25 @@ INVARIANT Visit
 INVARIANT TypeOk
 CHECK_DEADLOCK FALSE
 """
-GEN_CFG = """CONSTANTS
-  MaxLevel = 3
-  FromBases = {%(bases)s}
-  FromLevels = {0, 1, 2}
-  MaxSteps = %(steps)d
-  MinEmit = %(minemit)d
+GEN_CFG = CONSTS + """  MinEmit = %(minemit)d
 INIT Init
 NEXT Next
 INVARIANT Emit
 CHECK_DEADLOCK FALSE
 """
+
+
+def full(**kw):
+    """The full family: both element types, sources of slice level 0..2, every transformer codomain of JT."""
+    return dict(dict(maxlevel=3, bases='"int", "string"', levels="0, 1, 2", alphabet="full", land=99, mid=99, depth=99, minemit=1), **kw)
+
+
+def skel(**kw):
+    """The nesting skeletons: source [][][]int, one Join / one LiftF per type, Unit only to close; every word over
+    {LiftF, WrapF, Unit} with at most 3 contexts open, with `mid` Join/Yield steps inside and `land` in total
+    (mid = 0: the Join/Yield steps are trailing probes that show where the program lands after the nesting word)."""
+    return dict(dict(maxlevel=14, bases='"int"', levels="3", alphabet="skeleton", land=2, mid=0, depth=3, minemit=1), **kw)
+
 
 GO_BASE = {"int": "int", "string": "string", "Void": "duct.Void"}
 MODEL_NAME = {"int": "int", "string": "string", "Void": "Void"}     # what TypeOf is expected to print (I level only)
@@ -74,6 +88,10 @@ def sketch(n):
     if n["k"] in ("root", "seq"):
         return "%s%s(%s)" % ("m" if n["k"] == "root" else "seq", "" if n["open"] else "!", " ".join(sketch(c) for c in n["ch"]))
     return n["k"] + ":%d" % (n["id"] // 2)
+
+
+def nesting(n):
+    return max([0] + [(1 if c["k"] == "seq" else 0) + nesting(c) for c in n["ch"]])
 
 
 # ------------------------------------------------------------------------------------------------- Go generation
@@ -309,8 +327,11 @@ def judge(case, res):
 def run_and_judge(run, cases, tag):
     """cases: list of TLC cases.  Generates, builds, runs, judges.  Returns number of programs judged."""
     indexed = list(enumerate(cases, 1))
+    t0 = time.time()
     bins, outd, secs = build_generated(indexed, tag)
     run.notes["go_build_s"] = round(run.notes.get("go_build_s", 0) + secs, 1)
+    run.notes["go_generate_and_lock_wait_s"] = round(time.time() - t0 - secs, 1)
+    t0 = time.time()
     run.notes["go_packages"] = len(bins)
     try:
         with Scratch() as d:
@@ -358,6 +379,7 @@ def run_and_judge(run, cases, tag):
             if seen != len(cases) or nprog != len(cases):
                 raise Infra("harness judged %d of %d programs" % (seen, len(cases)))
             run.traces += visits
+            run.notes["run_and_judge_s"] = round(time.time() - t0, 1)
             run.notes["programs_run"] = run.notes.get("programs_run", 0) + seen
             run.notes["visits"] = run.notes.get("visits", 0) + visits
             if nviol:
@@ -376,9 +398,11 @@ def check(run, replay=None):
         run_and_judge(run, [rec["payload"]["case"]], tag + "_replay")
         return
     # ---- 1. MC: I (append/unit/Apply as coded) against P (stack of open contexts, bracketed walk, cut at k)
-    mcs = [dict(steps=5, visit="TRUE"), dict(steps=6, visit="FALSE")]
+    #         the skeleton configurations cover exactly the programs that GEN emits below
+    mcs = [full(steps=5, visit="TRUE"), full(steps=6, visit="FALSE"), skel(steps=9, visit="FALSE")]
     if thorough:
-        mcs = [dict(steps=6, visit="TRUE"), dict(steps=7, visit="FALSE")]
+        mcs = [full(steps=6, visit="TRUE"), full(steps=7, visit="FALSE"), skel(steps=8, visit="TRUE"),
+               skel(steps=10, mid=1, visit="FALSE")]
     for c in mcs:
         r = run_tlc("DuctMC", MC_CFG % c, timeout=1500, heap="6g" if thorough else None)
         run.add_mc("DuctMC", r, c)
@@ -387,13 +411,13 @@ def check(run, replay=None):
         if r.distinct == 0:
             raise Infra("DuctMC explored nothing:\n" + r.out[-2000:])
     run.exhaustive = True
-    # ---- 2. GEN: every program up to the bound + a seeded sample of long ones
-    exs = [dict(bases='"int"', steps=5, minemit=1)]
-    sim = dict(bases='"int", "string"', steps=9, minemit=6)
+    # ---- 2. GEN: every program up to the bound, every nesting skeleton, and a seeded sample of long programs
+    exs = [full(bases='"int"', steps=5), skel(steps=9)]
+    sim = full(steps=9, minemit=6)
     nsim = 60
     if thorough:
-        exs = [dict(bases='"int"', steps=6, minemit=1), dict(bases='"string"', steps=5, minemit=1)]
-        sim = dict(bases='"int", "string"', steps=11, minemit=7)
+        exs = [full(bases='"int"', steps=6), full(bases='"string"', steps=5), skel(steps=10, mid=1)]
+        sim = full(steps=11, minemit=7)
         nsim = 600
     cases = []
     for ex in exs:
@@ -403,7 +427,11 @@ def check(run, replay=None):
             raise Infra("DuctGen printed %d cases for %d states:\n%s" % (len(got), r.distinct, r.out[-2000:]))
         run.add_mc("DuctGen", r, ex)
         cases += got
-    run.notes["programs_exhaustive"] = len(cases)
+        key = "programs_skeleton" if ex["alphabet"] == "skeleton" else "programs_exhaustive"
+        run.notes[key] = run.notes.get(key, 0) + len(got)
+        if ex["alphabet"] == "skeleton":
+            run.notes["skeleton_max_nesting"] = max(nesting(c["tree"]) for c in got)
+            skel_sample = max(got, key=lambda c: (nesting(c["tree"]), len(c["prog"])))
     r = run_tlc("DuctGen", GEN_CFG % sim, workers=1, timeout=1500, simulate="num=%d" % nsim,
                 args=["-seed", str(run.seed), "-depth", str(sim["steps"] + 1)])
     seen, long_cases = set(), []
@@ -423,5 +451,5 @@ def check(run, replay=None):
             raise Infra("model error: I and P trees differ for " + show(c))
     # ---- 3. the same programs against the real package
     run_and_judge(run, cases, tag)
-    for c in (cases[len(cases) // 3], long_cases[0], long_cases[-1]):
+    for c in (cases[len(cases) // 3], skel_sample, long_cases[0], long_cases[-1]):
         run.sample({"program": show(c), "expected_tree": sketch(c["tree"]), "callbacks": len(c["trace"])})
